@@ -132,7 +132,7 @@ def check_binary(prog, rep, m):
     if f is None:
         raise AnalysisIncomplete('_cpu_binary not found')
     entry = 'binary'
-    k = interpret(prog, f)
+    k = interpret(prog, f, strict=False)       # an unmodelled lookup (searchsorted, bisect) is an opaque value, judged below
     rets = [v for v, g in k.returns]
     out = rets[0] if rets else None
     rep.add('K1', f, entry, 'output initialised %r' % getattr(out, 'init', None), f.node.lineno,
@@ -146,7 +146,22 @@ def check_binary(prog, rep, m):
     def is_member(g, yv, xv):
         # truth(reduce:any(bool(values == data[y,x])))
         txt = cond_repr(g)
-        return 'reduce:any' in txt and "read('%s'" % data in txt and values in txt
+        if 'reduce:any' in txt and "read('%s'" % data in txt and values in txt:
+            return True
+        # or a flag set by a loop over ALL listed values when one equals the cell
+        from ..kutil import flag_setting_paths, guard_atoms
+        for a in guard_atoms([g]):
+            if isinstance(a, App) and a.name == 'loopout':
+                L = next((l for l in k.loops if Rat.sym(l.var) == a.args[1]), None)
+                nm = next(iter(a.args[0].atoms())).name if isinstance(a.args[0], Rat) else str(a.args[0])
+                fs = flag_setting_paths(L, nm) if L is not None else None
+                whole = L is not None and (getattr(getattr(L, 'iterable', None), 'name', None) == values or
+                                           getattr(L, 'iterable', None) == ('param', values) or
+                                           (L.kind == 'range' and L.lo == Rat.const(0) and values in repr(L.hi)))
+                if fs and fs[0] == 1 and whole and len(fs[1]) == 1 and len(fs[1][0]) == 1 and fs[1][0][0][0] == 'cmp' and \
+                        fs[1][0][0][1] == '==' and values in cond_repr(fs[1][0][0]) and "read('%s'" % data in cond_repr(fs[1][0][0]):
+                    return True
+        return False
 
     ok1 = len(ones) == 1 and len(ones[0].guards) == 1 and is_member(ones[0].guards[0], *ones[0].idx)
     rep.add('K4-binary', f, entry, 'class 1 under %s' % [cond_repr(g)[:80] for g in (ones[0].guards if ones else [])],
